@@ -50,7 +50,7 @@ def run(ctx):
     def skip(site):
         # derive-generated and logging formatting code is not fed by wire values
         return site.body.path in F.derived_bodies()
-    sites = panics.analyse(ctx, bodies, "C06.no-panic", skip=skip)
+    sites = panics.analyse(ctx, bodies, "C06.no-panic", skip=skip, F=F)
     ctx.floor("C06.sites", len(sites), 8)
     ctx.extra["region_functions"] = [b.path for b in bodies]
     ctx.extra["site_kinds"] = {}
